@@ -18,7 +18,7 @@ SF = "unit_scaling/transforms/_simulate_format.py"
 TS = "unit_scaling/transforms/_track_scales.py"
 CP = "unit_scaling/transforms/_compile.py"
 
-OPAQUE_HELPERS = ("torch_nn_modules_to_user_modules", "_unit_init_weights", "_zero_init_biases", "_make_input_tensors_require_grad")
+OPAQUE_HELPERS = ()  # nothing is opaque by name: the abstract module enumerates its own (empty) children
 
 
 def snapshot(o: Obj) -> Dict[str, Any]:
@@ -39,7 +39,7 @@ def same_snapshot(a: Dict[str, Any], b: Dict[str, Any]) -> bool:
 
 def mkmodule(name: str = "module", **attrs: Any) -> Obj:
     m = Obj("torch.nn.Module", term=None)
-    m.attrs.update({"forward": O(f"{name}.forward"), **attrs})
+    m.attrs.update({"forward": O(f"{name}.forward"), "_children": [], "__module__": "user_code.models", **attrs})
     m.attrs["_label"] = name
     return m
 
@@ -90,8 +90,6 @@ def check(report: Report, repo: Repo) -> None:
         report.add("R1-copy-before-write", f"{cons}::stores", not stores, f"[{sname}] no attribute store on the input module", [e["attr"] for e in stores], [])
         if not isinstance(res, Obj) or res is m:
             continue
-        conv = [e for e in it.events if e.kind == "call" and e["callee"].endswith("torch_nn_modules_to_user_modules")]
-        report.add("R1-copy-before-write", f"{cons}::module-conversion", len(conv) == 1 and list(conv[0]["bound"].values())[0] is res, f"[{sname}] torch.nn -> user-module conversion runs on the copy", len(conv), 1, nontrivial=False)
         bl = res.attrs.get("backends")
         okl = isinstance(bl, list) and len(bl) == len(old_list) + 1 and all(x is y for x, y in zip(bl, old_list)) and bl[-1] is bnew and bl is not m.attrs.get("backends")
         report.add("R2-backend-list", f"{cons}::backends", okl, f"[{sname}] result.backends == input.backends + [backend], as its own list object", fmt(bl), fmt(old_list + [bnew]))
@@ -218,9 +216,9 @@ def check(report: Report, repo: Repo) -> None:
         stores = [e for e in it2.events if e.kind == "setattr" and e["obj"] is m]
         report.add("R1-copy-before-write", cons2, ok and not stores and TM.term_of(res) == ap[0]["result"] if ap else False, "goes through apply_transform(module, ...) once, returns its result, never stores on the argument", f"apply_transform x{len(ap)}, stores on input: {[e['attr'] for e in stores]}", "1, []")
         if fname == "track_scales" and ap:
-            helper = [e for e in it2.events if e.kind == "call" and e["callee"].endswith("_make_input_tensors_require_grad")]
-            okh = len(helper) == 1 and TM.term_of(list(helper[0]["bound"].values())[0]) == ap[0]["result"]
-            report.add("R1-copy-before-write", f"{cons2}::requires-grad-shim", okh, "the requires-grad shim is installed on the returned copy", len(helper), 1, nontrivial=False)
+            st = [e for e in it2.events if e.kind == "setattr" and e["attr"] == "forward"]
+            okh = len(st) >= 1 and all(TM.term_of(e["obj"]) == ap[0]["result"] for e in st)
+            report.add("R1-copy-before-write", f"{cons2}::requires-grad-shim", okh, "the requires-grad shim replaces forward on the returned copy only", len(st), ">=1", nontrivial=False)
 
     # ------------------------------------------------ R6 mutable defaults never mutated
     MUT = {"append", "extend", "insert", "pop", "remove", "clear", "update", "setdefault", "popitem", "sort", "reverse", "add", "discard"}
